@@ -70,7 +70,7 @@ def run(tier, seed, scale=1.0):
                  chunk=max(32, n_sub // 32)))
     res.merge(go("lineindep", n_sub // 2, opts={"zero": 1, "target": 6, "cls": 5},
                  chunk=max(32, n_sub // 32)))
-    big = go("robust", n_sub // 2, opts={"bigtries": 1}, chunk=max(16, n_sub // 64))
+    big = go("robust", max(48, n_sub // 6), opts={"bigtries": 1}, chunk=max(8, n_sub // 128))
     _rename_bigtries(big)
     res.merge(big)
     return common.finish(
